@@ -169,6 +169,13 @@ def chk_case(inp, c):
         if status in (None, "optimal"):
             return base
         return f"{base.split(':')[0]}@{status}" + (":gross" if (status == "optimal_inaccurate" and excess > 4.0) else "")
+    def flat(base, excess):
+        """Flat gamuts (fewer sources than receptors): the conic problem is degenerate and the solver's 'optimal' scales
+        are accurate to ~1e-3 only; a shortfall of up to 4x the tolerance is keyed ':flat-gamut' (a listed finding),
+        anything larger ':flat-gamut:gross' (never listed)."""
+        if Z.full_dim:
+            return base
+        return base + ":flat-gamut" + (":gross" if excess > 4.0 else "")
     zero_vertex = np.all(sc >= 0) and np.any(sc == 0)
     c.require(np.all(sc > 0), "both scales are positive",
               mechanism=mech("scales-nonpositive" + ((":%s-objective-at-zero" % obj) if zero_vertex else "")), scales=sc)
@@ -201,7 +208,8 @@ def chk_case(inp, c):
             got = float(w @ sc)
             c.margin("max objective shortfall / tol", opt - got, 1e-4 * (1 + abs(opt)))
             c.require(got >= opt - 1e-4 * (1 + abs(opt)), "'max': no feasible pair of scales has a larger weighted sum",
-                      mechanism=mech("max-suboptimal"), got=got, lp_opt=opt, scales=sc, lp_scales=r.x[-2:])
+                      mechanism=mech(flat("max-suboptimal", (opt - got) / (1e-4 * (1 + abs(opt))))), got=got, lp_opt=opt,
+                      scales=sc, lp_scales=r.x[-2:])
     else:
         g = 2 * w ** 2 * (sc - 1)
         cost = np.zeros(nv)
@@ -214,7 +222,7 @@ def chk_case(inp, c):
             tolv = 1e-4 * (1 + abs(float(g @ sc))) + 1e-7
             c.margin("unity variational gap / tol", gap, tolv)
             c.require(gap <= tolv, "'unity': the scales are the feasible pair closest to (1, 1) (weighted)",
-                      mechanism=mech("unity-suboptimal"), gap=gap, scales=sc, lp_scales=r.x[-2:])
+                      mechanism=mech(flat("unity-suboptimal", gap / tolv)), gap=gap, scales=sc, lp_scales=r.x[-2:])
         if all_in:
             c.require(np.all(np.abs(sc - 1) <= 1e-3), "'unity': scales are (1, 1) when all targets are in gamut",
                       mechanism=mech("unity-not-one-in-gamut"), scales=sc)
